@@ -14,7 +14,7 @@ OPT_san   := -O1 -g1 -fsanitize=address,undefined -fno-sanitize-recover=undefine
 CXX  := $(CXX_$(CFG))
 OPT  := $(OPT_$(CFG))
 
-INC := -I$(GEN) -I$(REPO)/tools/include -I$(REPO)/csg/include -I$(REPO)/xtp/include \
+INC := -I$(GEN) -I$(REPO)/csg/src/csgapps/partial_rdf -I$(REPO)/tools/include -I$(REPO)/csg/include -I$(REPO)/xtp/include \
        -I/usr/include/eigen3 -I/usr/include/hdf5/serial -I$(REPO)/csg/src/libcsg -I$(REPO)/csg/src/libcsg/modules/io \
        -I$(REPO)/csg/src/tools
 CXXFLAGS := -std=c++17 $(OPT) -DNDEBUG -w -MMD -MP $(INC)
@@ -79,9 +79,11 @@ $(B)/tool/orientcorr.o: $(REPO)/csg/src/csgapps/orientcorr/orientcorr.cc | $(GEN
 $(B)/tool/csg_reupdate.o: $(REPO)/csg/src/tools/csg_reupdate.cc | $(GEN)/.stamp
 	@mkdir -p $(dir $@)
 	$(CXX) $(CXXFLAGS) -Dmain=tool_main -c $< -o $@
+# partial_rdf's main() has no return statement (legal for main only): compile the renamed copy
+# without optimisation so that flowing off the end cannot be treated as unreachable
 $(B)/tool/partial_rdf.o: $(REPO)/csg/src/csgapps/partial_rdf/partial_rdf.cc | $(GEN)/.stamp
 	@mkdir -p $(dir $@)
-	$(CXX) $(CXXFLAGS) -Dmain=tool_main -c $< -o $@
+	$(CXX) $(CXXFLAGS) -O0 -I$(REPO)/csg/src/csgapps/partial_rdf -Dmain=tool_main -c $< -o $@
 $(B)/tool/template_threaded.o: $(REPO)/csg/share/template/template_threaded.cc | $(GEN)/.stamp
 	@mkdir -p $(dir $@)
 	$(CXX) $(CXXFLAGS) -Dmain=tool_main -c $< -o $@
